@@ -66,10 +66,22 @@ func (p *Prog) lowerTop(fi *FuncInfo, ct *Contract) (fv *FuncIVL, err error) {
 		// entry snapshot used by specs
 		sn := "$p." + o.Name()
 		l.assign(sn, s, V(vn, s))
-		env[o.Name()] = envEntry{V(sn, s), o.Type()}
+		ot := o.Type()
+		if p.opts.concretePD && namedOf(ot) == "packetDecoder" {
+			// replay search: the decoder is a *realDecoder over symbolic bytes, positioned anywhere valid
+			if tn, ok := fi.Pkg.Types.Scope().Lookup("realDecoder").(*types.TypeName); ok {
+				ot = types.NewPointer(tn.Type())
+				rawv := l.heapVar("F.realDecoder.raw", p.sortOf(types.NewSlice(types.Typ[types.Uint8])))
+				offv := l.heapVar("F.realDecoder.off", "Int")
+				rv := Select(rawv, V(vn, s))
+				l.wf(rv, types.NewSlice(types.Typ[types.Uint8]))
+				l.assume(And(Le(IntLit(0), Select(offv, V(vn, s))), Le(Select(offv, V(vn, s)), p.reg.sLen(rv)), Lt(IntLit(0), V(vn, s))))
+			}
+		}
+		env[o.Name()] = envEntry{V(sn, s), ot}
 		for _, n := range names {
 			if n != "" && n != "_" {
-				env[n] = envEntry{V(sn, s), o.Type()}
+				env[n] = envEntry{V(sn, s), ot}
 			}
 		}
 	}
